@@ -600,6 +600,14 @@ def check_play_game(ctx, base, moves, check_keys=True):
         ctx.nontrivial.add(fen_e.rsplit(' ', 2)[0])
     if len(out) != len(spec):
         ctx.oracle_fail('game-length-differs', cmd, {'engine_lines': len(out), 'rules_lines': len(spec)})
+    # hypotheses of the history theorems (T2.1/T2.3/T4.1), decided by the model on every position of this game:
+    # consistent position, no capture aims at the king, every generated move fits the board, key right
+    hyp = ctx.model.ask(f'oracle wf {base} ; ' + ' '.join(moves))
+    for i, line in enumerate(hyp):
+        if line.startswith('!'): break
+        ctx.count('theorem-hypotheses-decided')
+        if line != 'wf 1 nk 1 notok 0 key 1':
+            ctx.oracle_fail('theorem-hypothesis-fails-on-model', cmd, {'ply': i, 'decided': line}); break
     return hist_keys
 
 
